@@ -72,6 +72,9 @@ def main():
             mp = os.path.join(sd, n, "meta.json")
             if os.path.exists(mp):
                 meta = json.load(open(mp))
+                if meta.get("judged", {}).get("claimed") is False:
+                    print(f"{meta['property']} {n}: NOT-CLAIMED ({meta['judged']['reason'][:90]}...)")
+                    continue
                 muts.append({"id": n, "prop": meta["property"], "patch": f"seeded/{n}/patch.diff"})
     else:
         muts = json.load(open(os.path.join(HERE, "mutants.json")))
